@@ -105,8 +105,8 @@ def write_overlay(kind):
     """kind: access (accessors only) | instr (accessors + yield points + clock)."""
     inj = os.path.join(HARNESS, "inject")
     rep = {}
-    for f in sorted(glob.glob(os.path.join(inj, "zz_verif_access*.go"))):
-        rep[os.path.join(REPO, os.path.basename(f))] = f
+    for f in sorted(glob.glob(os.path.join(inj, "zz_verif_access*.go.in"))):
+        rep[os.path.join(REPO, os.path.basename(f)[:-3])] = f
     path = os.path.join(WORK, "overlay-%s.json" % kind)
     if kind == "instr":
         odir = os.path.join(WORK, "overlay-instr")
